@@ -94,22 +94,10 @@ func propC16(c *Ctx) {
 	// ---- R16.2 ----------------------------------------------------------
 	c.Rule("R16.2", "the identity tables agree: names AddRequiredFields can add = candidates of the default unique key ⊆ names the row builder understands; selector and column are added independently", 10)
 	auto := map[string]bool{}
-	withClosures(arf, func(f *ssa.Function) {
-		for _, ci := range callsIn(f) {
-			isLocal := false
-			for _, cal := range res.Callees(ci) {
-				if cal.Parent() == arf {
-					isLocal = true
-				}
-			}
-			if !isLocal || len(ci.Common().Args) != 2 {
-				continue
-			}
-			if s, ok := constString(ci.Common().Args[0]); ok {
-				auto[s] = true
-			}
-		}
-	})
+	reqSites := requiredFieldSites(res, arf)
+	for n := range reqSites {
+		auto[n] = true
+	}
 	possible := map[string]bool{}
 	allInstrs(aui, func(in ssa.Instruction) {
 		if st, ok := in.(*ssa.Store); ok {
@@ -144,31 +132,51 @@ func propC16(c *Ctx) {
 	// components): a selection on a nested component of a tuple array yields one row per element too
 	{
 		okAbi, okLog := false, false
-		for _, ci := range callsIn(arf) {
-			isAdd := false
-			for _, cal := range res.Callees(ci) {
-				if cal.Parent() == arf && len(ci.Common().Args) == 2 {
-					isAdd = true
+		for _, rs := range reqSites["abi_idx"] {
+			for _, col := range loopCollections(rs.at) {
+				if isSelectedOf(col) {
+					okAbi = true
 				}
 			}
-			if !isAdd {
-				continue
-			}
-			name, _ := constString(ci.Common().Args[0])
-			switch name {
-			case "abi_idx":
-				for _, col := range loopCollections(ci) {
-					if isSelectedOf(col) {
-						okAbi = true
+			// or: decided by slices.ContainsFunc(Selected(), func(inp) bool { return !inp.Indexed })
+			fIndexed := w.Field("dig", "Input", "Indexed")
+			for _, ci := range callsIn(rs.fn) {
+				call, ok := ci.(*ssa.Call)
+				if !ok || calleeName(call) != "slices.ContainsFunc" || len(call.Call.Args) != 2 || !isSelectedOf(stripConv(call.Call.Args[0])) {
+					continue
+				}
+				var pred *ssa.Function
+				switch p := stripConv(call.Call.Args[1]).(type) {
+				case *ssa.MakeClosure:
+					pred = p.Fn.(*ssa.Function)
+				case *ssa.Function:
+					pred = p
+				}
+				if pred == nil {
+					continue
+				}
+				readsIndexed := false
+				allInstrs(pred, func(in ssa.Instruction) {
+					if v, ok := in.(ssa.Value); ok {
+						if lf, _ := fieldOf(v); lf == fIndexed {
+							readsIndexed = true
+						}
 					}
-				}
-			case "log_idx":
-				sel, _ := cmpEdges(arf, func(b *ssa.BinOp) bool {
-					arg, ok := lenArg(b.X)
-					n, okc := constInt(b.Y)
-					return b.Op == token.GTR && ok && okc && n == 0 && isSelectedOf(arg)
 				})
-				okLog = guardedByEdges(arf, ci, sel)
+				t, _ := boolEdges(call)
+				if readsIndexed && len(t) > 0 && guardedByEdges(rs.fn, rs.at, t) {
+					okAbi = true
+				}
+			}
+		}
+		for _, rs := range reqSites["log_idx"] {
+			sel, _ := cmpEdges(rs.fn, func(b *ssa.BinOp) bool {
+				arg, ok := lenArg(b.X)
+				n, okc := constInt(b.Y)
+				return b.Op == token.GTR && ok && okc && n == 0 && isSelectedOf(arg)
+			})
+			if guardedByEdges(rs.fn, rs.at, sel) {
+				okLog = true
 			}
 		}
 		c.Check("R16.2", "AddRequiredFields/abi_idx-from-Selected()", arf.Pos(), okAbi, "abi_idx is added when any input returned by Event.Selected() is not indexed")
@@ -196,6 +204,41 @@ func propC16(c *Ctx) {
 				}
 			}
 		})
+		// every candidate is examined: the loop over the candidates ends only when they are exhausted
+		// (a `break` at the first absent candidate drops trace_action_idx / abi_idx from the key)
+		{
+			early := false
+			nApp := 0
+			for _, ci := range callsNamed(aui, "builtin append") {
+				call := ci.(*ssa.Call)
+				vs, ok := varargValues(call.Call.Args[1])
+				if !ok || len(vs) != 1 {
+					continue
+				}
+				if b, isB := vs[0].Type().Underlying().(*types.Basic); !isB || b.Kind() != types.String {
+					continue
+				}
+				nApp++
+				// from the append (an iteration that found its candidate) and from every other point of the
+				// loop body, the function's exit is reached only through the loop's own exhaustion test
+				hdr := loopHeaderOf(call)
+				if hdr == nil {
+					continue
+				}
+				lp := naturalLoop(hdr)
+				for b := range lp {
+					if b == hdr {
+						continue // the header's own exit is the exhaustion test
+					}
+					for _, s2 := range b.Succs {
+						if !lp[s2] {
+							early = true // leaves the loop from inside its body (break / return)
+						}
+					}
+				}
+			}
+			c.Check("R16.2", "AddUniqueIndex/every-candidate-examined", aui.Pos(), nApp > 0 && !early, "the loop over the key candidates is left only when all of them were looked at")
+		}
 		c.Check("R16.2", "AddUniqueIndex/default-key", aui.Pos(), okUser && okStore, "a user-supplied unique key is kept; otherwise the identity columns present form the key")
 	}
 
@@ -394,13 +437,44 @@ func propC16(c *Ctx) {
 				par := h.Params[pi+off]
 				okAll := true
 				n := 0
+				isPar := func(w ssa.Value) bool {
+					w = stripConv(w)
+					if u, ok := w.(*ssa.UnOp); ok {
+						if al, ok := u.X.(*ssa.Alloc); ok {
+							if cv := cellValue(al); cv != nil {
+								w = stripConv(cv)
+							}
+						}
+					}
+					return w == ssa.Value(par)
+				}
+				// edges of h on which a column's Name equals the parameter
+				var eqT []Edge
+				allInstrs(h, func(in ssa.Instruction) {
+					if b, ok := in.(*ssa.BinOp); ok && b.Op == token.EQL && ((isColName(b.X) && isPar(b.Y)) || (isColName(b.Y) && isPar(b.X))) {
+						t, _ := boolEdges(b)
+						eqT = append(eqT, t...)
+					}
+				})
 				for _, r := range returnsOf(h) {
 					for _, lf := range phiLeaves(returnValues(r)[0]) {
 						n++
-						if k, isC := lf.Val.(*ssa.Const); isC && k.Value != nil && k.Value.String() == "false" {
+						if k, isC := lf.Val.(*ssa.Const); isC && k.Value != nil {
+							if k.Value.String() == "false" {
+								continue
+							}
+							// `return true` inside the scanning loop: only where a column matched
+							site := ssa.Instruction(r)
+							okT := len(eqT) > 0 && guardedByEdges(h, site, eqT)
+							if lf.Phi != nil && lf.Pred != nil {
+								okT = len(eqT) > 0 && edgeGuarded(h, lf.Pred, lf.Phi.Block(), eqT)
+							}
+							if !okT {
+								okAll = false
+							}
 							continue
 						}
-						if !member(lf.Val, func(w ssa.Value) bool { return stripConv(w) == ssa.Value(par) }, d+1) {
+						if !member(lf.Val, isPar, d+1) {
 							okAll = false
 						}
 					}
@@ -691,4 +765,47 @@ func aff16(v ssa.Value) ssa.Value {
 		}
 	}
 	return v
+}
+
+// naturalLoop: the blocks of the natural loop with header h (h plus every
+// block from which a latch – a predecessor of h that h dominates – can be
+// reached without passing h); nil if h heads no loop.
+func naturalLoop(h *ssa.BasicBlock) map[*ssa.BasicBlock]bool {
+	var latches []*ssa.BasicBlock
+	for _, p := range h.Preds {
+		if h.Dominates(p) {
+			latches = append(latches, p)
+		}
+	}
+	if len(latches) == 0 {
+		return nil
+	}
+	loop := map[*ssa.BasicBlock]bool{h: true}
+	work := append([]*ssa.BasicBlock{}, latches...)
+	for len(work) > 0 {
+		b := work[0]
+		work = work[1:]
+		if loop[b] {
+			continue
+		}
+		loop[b] = true
+		work = append(work, b.Preds...)
+	}
+	return loop
+}
+
+// loopHeaderOf: the header of the innermost natural loop that contains `in`.
+func loopHeaderOf(in ssa.Instruction) *ssa.BasicBlock {
+	fn := in.Parent()
+	var best *ssa.BasicBlock
+	for _, b := range fn.Blocks {
+		lp := naturalLoop(b)
+		if lp == nil || !lp[in.Block()] {
+			continue
+		}
+		if best == nil || best.Dominates(b) {
+			best = b
+		}
+	}
+	return best
 }
